@@ -254,9 +254,11 @@ func (e *Exec) intrinsic(name string, fn *types.Func, recvExpr ast.Expr, call *a
 				n := e.advanceTime(c.st, "0")
 				return []Term{{fmt.Sprintf("(- %s %s)", a[0].S, n.S), tInt64}}, true
 			case "Sleep":
+				e.sleepRequires(a[0], c, call)
 				e.advanceTime(c.st, a[0].S)
 				return nil, true
 			case "After":
+				e.sleepRequires(a[0], c, call)
 				e.advanceTime(c.st, a[0].S)
 				return e.freshResults(call, c, "chan"), true
 			}
@@ -605,6 +607,25 @@ func (e *Exec) guardedBy(c *Ctx, base Term, field string, n ast.Node) {
 				e.assert(c.st, name, "guarded-by", fmt.Sprintf("(select %s %s)", h.S, base.S), "access to "+field+" needs "+m.Mutex, e.prog.pos(n), nil)
 			}
 		}
+	}
+}
+
+// sleepRequires: the `sleep requires` clauses of the function under contract, checked at a wait of duration d.
+func (e *Exec) sleepRequires(d Term, c *Ctx, call *ast.CallExpr) {
+	if c.spec || e.inSpawn {
+		return
+	}
+	tf := topFrameOf(c.fr)
+	if tf == nil || tf.contract == nil {
+		return
+	}
+	for _, rq := range tf.contract.SleepReq {
+		if rq.Mode != "" && rq.Mode != e.mode {
+			continue
+		}
+		sc := &Ctx{st: c.st, fr: tf, spec: true, old: tf.entry, bound: map[string]Term{"d": d}}
+		phi := e.evalCond(rq.Expr, sc)
+		e.assert(c.st, fmt.Sprintf("%s#sleep.requires[%s]", e.fnName, rq.Label), "assertion", phi, rq.Text, e.prog.pos(call), e.modelVars(c.st, tf))
 	}
 }
 
